@@ -374,6 +374,9 @@ class Program(object):
                         name, path, os.path.relpath(path, self.root), src)
                 except SyntaxError as e:
                     raise AnalysisError('cannot parse %s: %s' % (path, e))
+        self.inlined: List[Tuple[str, str, str]] = []
+        self.inline_skipped: List[Tuple[str, str]] = []
+        self._inline_new_helpers()
         self._alpha_normalise()
         self._link_classes()
         self._methods_by_name: Dict[str, List[Func]] = {}
@@ -381,6 +384,40 @@ class Program(object):
             for f in m.all_funcs():
                 if f.cls is not None:
                     self._methods_by_name.setdefault(f.name, []).append(f)
+
+    def _inline_new_helpers(self):
+        """Substitute helper functions that do not exist in the reference
+        snapshot back into their call sites (see sa/inline.py)."""
+        if not self.reference or os.environ.get('SA_NO_INLINE'):
+            return
+        if os.path.realpath(self.reference) == os.path.realpath(self.root):
+            return
+        from . import inline
+        trees, ref_trees, differs = {}, {}, False
+        for m in self.modules.values():
+            trees[m.name] = m.tree
+            rp = os.path.join(self.reference, m.relpath)
+            ref_trees[m.name] = None
+            if os.path.exists(rp):
+                try:
+                    with open(rp, 'r', encoding='utf-8') as fp:
+                        rsrc = fp.read()
+                    if rsrc != m.source:
+                        differs = True
+                    ref_trees[m.name] = ast.parse(rsrc)
+                except (OSError, SyntaxError):
+                    pass
+        if not differs:
+            return
+        self.inlined, self.inline_skipped = inline.inline_new_helpers(
+            trees, ref_trees)
+        if self.inlined:
+            for m in self.modules.values():
+                m.functions.clear()
+                m.classes.clear()
+                m.imports.clear()
+                m.constants.clear()
+                m._index()
 
     def _alpha_normalise(self):
         """Rename locals to the names used in the reference snapshot where a
